@@ -14,10 +14,17 @@ UNWIRE = {v: k for k, v in WIRE.items()}
 def pkt(cmd, a0, a1, data=b"", bad_sum=False, bad_cmd=False):
     w = WIRE[cmd]
     if bad_cmd:
-        w ^= 0x100
+        # True: flip one low bit; an int: XOR mask (e.g. a high bit, giving a non-ASCII command word)
+        w ^= 0x100 if bad_cmd is True else int(bad_cmd)
     s = sum(data) & 0xFFFFFFFF
     if bad_sum:
-        s = (s + 1) & 0xFFFFFFFF
+        # True: off by one; "zero": the field is 0; an int: that value
+        if bad_sum is True:
+            s = (s + 1) & 0xFFFFFFFF
+        elif bad_sum == "zero":
+            s = 0 if s != 0 else 1
+        else:
+            s = int(bad_sum) & 0xFFFFFFFF if (int(bad_sum) & 0xFFFFFFFF) != s else (s + 1) & 0xFFFFFFFF
     return struct.pack("<6I", w, a0, a1, len(data), s, w ^ 0xFFFFFFFF) + bytes(data)
 
 
@@ -78,9 +85,9 @@ class SimDevice(object):
         if cor and cor[0] == self.n_dev_pkts:
             kw = dict(kw)
             if cor[1] == "sum":
-                kw["bad_sum"] = True
+                kw["bad_sum"] = cor[2] if len(cor) > 2 else True
             else:
-                kw["bad_cmd"] = True
+                kw["bad_cmd"] = cor[2] if len(cor) > 2 else True
             self.corrupted = dict(kind=cor[1], cmd=cmd, nonempty=bool(data), index=self.n_dev_pkts)
         self.log.append(("dev", cmd, a0, a1, bytes(data)))
         raw = pkt(cmd, a0, a1, data, **kw)
